@@ -62,7 +62,7 @@ def run(ctx):
     traced = [r for r in wrows if r["vec"]["cmd"] in pipetrace.TOPO and r["obs"].get("wfailed", 0) > 0
               and not r["obs"].get("timeout") and not r["obs"].get("panic")]
     for r, why in pipetrace.validate_traces(ctx, traced):
-        ctx.add_failure("trace-rejected", r["vec"]["sig"], r["id"], {"vec": r["vec"], "why": why, "observed": r["obs"]})
+        ctx.add_failure("trace-rejected", r["vec"]["sig"], r["id"], {"vec": r["vec"], "why": why, "observed": r["obs"], "family": "pipe"})
     # the binary: /dev/full and strace
     cvecs = []
     for c, args in CLI.items():
